@@ -119,7 +119,9 @@ def strategy(draw):
         extra_n = draw(st.lists(st.sampled_from([c for c in noncanon if c not in tgt_chroms] or noncanon[:1]), max_size=2, unique=True))
         acc_chroms = sorted(set(tgt_chroms) | set(extra_c) | set(extra_n), key=lambda c: _order(style, c))
         if len(tgt_chroms) > 1 and draw(st.integers(0, 5)) == 0:
-            acc_chroms.remove(tgt_chroms[-1])
+            # a targeted contig the access table does not list - any of them, so that the listed targeted contigs can be all
+            # non-canonical while an unlisted one is canonical (seeded change C12q judged canonicality on the listed ones only)
+            acc_chroms.remove(tgt_chroms[draw(st.integers(0, len(tgt_chroms) - 1))])
         access = []
         for c in acc_chroms:
             L = lengths.get(c) or draw(st.sampled_from([3000, 20000, 90000, 250000]))
@@ -175,6 +177,21 @@ def strategy(draw):
             base = draw(st.sampled_from([0, 40000]))
             for t in range(draw(st.integers(6, 30))):
                 access.append([free[-1], base + 1000 * t, base + 1000 * t + 2200])
+            access.sort(key=lambda r: (_order(style, r[0]), r[1], r[2]))
+    if access is not None and style == "chr" and draw(st.integers(0, 11)) == 0:
+        # every canonical targeted contig unlisted in the access table, the short-named non-canonical chrM targeted and
+        # listed, and the untargeted canonical chr10 listed: some targeted contig is canonical, so chr10 must be binned
+        # (seeded change C12q judged canonicality on the listed targeted contigs only and fell back to the name lengths)
+        tset = {b[0] for b in baits if b[2] > b[1]}
+        if "chr10" not in tset and any(c in canon for c in tset):
+            access = [r for r in access if not (r[0] in canon and r[0] in tset)]
+            if "chrM" not in tset:
+                baits.append(["chrM", 2000, 2120, "MT-ND1"])
+                baits.sort(key=lambda b: (_order(style, b[0]), b[1], b[2]))
+            if not any(r[0] == "chrM" for r in access):
+                access.append(["chrM", 0, 16571])
+            if not any(r[0] == "chr10" for r in access):
+                access.append(["chr10", 0, 90000])
             access.sort(key=lambda r: (_order(style, r[0]), r[1], r[2]))
     return {"style": style, "baits": baits, "access": access, "avg": avg, "min": mn, "tavg": tavg,
             "split": draw(st.booleans()), "short": draw(st.booleans()), "annotate": draw(st.integers(0, 3)) == 0,
@@ -284,6 +301,14 @@ def classify(case):
     style = case["style"]
     if not any(is_canon(style, b[0]) for b in case["baits"]):
         labs.append("no-canonical-target")
+    if case["access"]:
+        listed = {r[0] for r in case["access"]}
+        tch = {b[0] for b in case["baits"] if b[2] > b[1]}
+        if any(is_canon(style, c) for c in tch - listed) and tch & listed and not any(is_canon(style, c) for c in tch & listed):
+            labs.append("canonical-target-unlisted,listed-targets-noncanonical")
+            mx = max(len(c) for c in tch & listed)
+            if any(is_canon(style, c) and len(c) > mx for c in listed - tch):
+                labs.append("canonical-target-unlisted,longer-named-untargeted-canonical")
     if case["split"]:
         labs.append("split")
     if case["min"] and case["min"] > 0.75 * case["avg"] - 1:
